@@ -1,7 +1,11 @@
 #!/usr/bin/env bash
-# usage: bin/try_patch.sh <patch> <Cxx> [more Cxx]   -- applies the patch to /repo, runs the checks, reverts
+# usage: bin/try_patch.sh <patch> <Cxx> [more Cxx]   -- applies the patch to /repo, runs the checks, reverts.
+# Evidence files written while the patch is applied are put back afterwards (evidence must come from the unchanged tree).
 P="$(readlink -f "$1")"; shift
-cd /verif
-git -C /repo apply "$P" || { echo "patch does not apply"; exit 9; }
-for c in "$@"; do ./check "$c" 2>&1 | grep -E "VIOLATION|KNOWN|UNDECIDED|CHECKER|refuted obligation|^C[0-9]+:" | cut -c1-400; done
-git -C /repo checkout -- . 
+HERE="$(cd "$(dirname "${BASH_SOURCE[0]}")/.." && pwd)"; cd "$HERE"
+REPO="${PANDERA_REPO:-/repo}"
+TMP="$(mktemp -d)"; cp -r evidence "$TMP/" 2>/dev/null
+git -C "$REPO" apply "$P" || { echo "patch does not apply"; rm -rf "$TMP"; exit 9; }
+for c in "$@"; do ./check "$c" 2>&1 | grep -E "VIOLATION|KNOWN|UNDECIDED|CHECKER|refuted obligation|bounded stand-in|^C[0-9]+:" | cut -c1-400; done
+git -C "$REPO" checkout -- .
+rm -rf evidence; cp -r "$TMP/evidence" . 2>/dev/null; rm -rf "$TMP"
